@@ -527,7 +527,7 @@ def install(E):
         x, y, u, a, b = X(), X('y'), X('u'), X('a'), X('b')
         C = lambda q: hS.set_of(q)     # noqa
         return loop_common(lc, acc='T') + [
-            ('acc_after_components', lc.env['T'].t >= hS.alloc),
+            ('acc_is_not_a_component', z3.Not(yR[lc.env['T'].t])),
             ('components_unchanged', z3.ForAll([r], z3.Implies(yR[r], h.set_of(r) == C(r)))),
             ('subgraph_edges', hp.FA([a, b], edge(h, sg, a, b) == E[a, b], [succ(h, sg, a)[b], E[a, b]])),
             ('subgraph_wf', wfG(h, sg)),
@@ -587,17 +587,15 @@ def install(E):
         return hp.RTC_INDUCTION, [E, R]
 
     def eg_cut_component_has_cycle(c, path):
-        # loop body: in a component with two different members every member has a predecessor in
-        # the component (the last step of a path from one of the two)
+        # loop body: two different members x, y of a component: the last step of a path from y to x
+        # starts inside the component (maximality) - so x has a predecessor in the component
         scc = c.sk['scc']
         E, hS = scc.sk['E'], scc.h1
-        e1, e2 = path.ghosts['len_witnesses']
         C = hS.set_of(path.env['scc'].t)
-        x = X()
-        l1, l2 = hp.rtc_last(E, e1, x), hp.rtc_last(E, e2, x)
-        return z3.Implies(z3.And(C[e1], C[e2], e1 != e2),
-                          z3.ForAll([x], z3.Implies(C[x], z3.Or(z3.And(C[l1], E[l1, x]), z3.And(C[l2], E[l2, x]))),
-                                    patterns=[C[x]]))
+        x, y = X(), X('y')
+        l = hp.rtc_last(E, y, x)
+        return z3.ForAll([x, y], z3.Implies(z3.And(C[x], C[y], x != y), z3.And(C[l], E[l, x])),
+                         patterns=[z3.MultiPattern(C[x], C[y])])
 
     def eg_cut_complete(c, path):
         f, k, phi, Ep, E, R = eg_view(c, path)
@@ -617,7 +615,7 @@ def install(E):
                'heavy_requires': ('kripke_wf', 'Ephi_def', 'finite_structure_cycle_lemma', 'memo_inv'),
                'slice_more_main': r'^loop1:(T_sound|T_complete|subgraph_|components_)',
                # facts about the constructed graph, the components and the accumulator do not need the semantics axioms
-               'slice_heavy': r':(subgraph_|components_|T_sound|T_complete|acc_after|memo_inv:preserved|since_entry|:cut[13789]$|:cut10$)',
+               'slice_heavy': r':(subgraph_|components_|T_sound|T_complete|acc_is_not|memo_inv:preserved|since_entry|:cut[13789]$|:cut10$)',
                'cuts': {'ensures:result_is_sat': EG_CUTS, 'ensures:memo_inv': EG_CUTS,
                         'loop1:T_sound:preserved': [eg_cut_component_has_cycle]}}, owner='C01'))
 
